@@ -86,13 +86,16 @@ def base58_decode(v: bytes) -> bytes:
     :returns: bytes
     """
     try:
-        prefix_len = next(
-            len(encoding[2]) for encoding in base58_encodings if len(v) == encoding[1] and v.startswith(encoding[0])
+        encoding = next(
+            encoding for encoding in base58_encodings if len(v) == encoding[1] and v.startswith(encoding[0])
         )
     except StopIteration as e:
         raise ValueError('Invalid encoding, prefix or length mismatch.') from e
 
-    return base58.b58decode_check(v)[prefix_len:]
+    prefix, data = encoding[2], base58.b58decode_check(v)
+    if not data.startswith(prefix) or len(data) != len(prefix) + encoding[3]:
+        raise ValueError('Invalid encoding, binary prefix mismatch.')
+    return data[len(prefix) :]
 
 
 def base58_encode(v: bytes, prefix: bytes) -> bytes:
